@@ -278,6 +278,18 @@ theorem per_call_exemptions_in_use :
 theorem per_call_settings_are_written :
     Gen.perCallState.any (fun r => r.name == "openapi3.schemaValidationSettings" && decide (r.writes > 0)) = true := by decide
 
+/-- No reachable function stores an `any`-typed value of the shared document (default, example, enum or extension
+    value) into a caller-owned value without copying it: the class of finding F-C15-1, which the table could not see
+    before (then only the race run found it). The footprint such a row denotes is a plain write
+    (`regression_shared_default`). -/
+theorem no_document_payload_escapes : ∀ w ∈ Gen.sharedWrites, rowClass w ≠ .payloadEscape := by decide
+
+/-- F-C15-1 as the translator reads it when the deep copy is removed again (row produced by the extractor on the
+    tree with `value[propName] = dflt`): rejected by `footprint_clean`. -/
+theorem regression_shared_default_row :
+    rowOK (.write "openapi3/schema.go" 1958 "openapi3.(*Schema).visitJSONObject" "value[propName] = dflt" .alias
+      .payloadEscape "" "") = false := by decide
+
 /-- The footprint denoted by the table is clean for the configuration denoted by the table. -/
 theorem table_acts_clean :
     ∀ a ∈ tableActs Gen.sharedWrites, cleanAct (tableCfg Gen.sharedWrites) a = true := by decide
